@@ -39,5 +39,11 @@ def neoxCkptOp (args : List String) : String :=
   joinWith " " ((List.range world).map fun r =>
     s!"r{r}:part={joinWith "," (partition layersOf inv r)}:restores={joinWith "," (restores layersOf fw r)}")
   ++ " save=" ++ toString ((saveColls true (boolArg args "dir")).length) ++ " load=" ++ toString ((loadColls true (boolArg args "dir")).length)
+  -- value level: `held r n` is the symbolic value "n@r"; which rank's value the state holds for every key, and
+  -- which value every (rank, layer) holds after loading that state over "n@r~" (the pre-load value)
+  ++ " vals=" ++ joinWith "," ((srt (merged world layersOf inv)).map fun n =>
+      match mergedVal world layersOf inv (fun r n => s!"{n}@{r}") n with | some v => v | none => s!"{n}@none")
+  ++ " after=" ++ joinWith ";" ((List.range world).map fun r => joinWith "," ((layersOf r).map fun n =>
+      loadVal layersOf fw (mergedVal world layersOf inv (fun r n => s!"{n}@{r}")) (fun r n => s!"{n}@{r}~") r n))
 
 end KV.Driver
